@@ -501,8 +501,10 @@ class BoundedTransform(BaseTransform):
             A tuple containing the mapped array and the log absolute determinant Jacobian.
         """
         y = (x - self.lower) / self._denom
-        log_j = self._scale_log_abs_det_jacobian * self.xp.ones(
-            y.shape[0], device=get_device(y)
+        # One width term per column: bounds given as a single number apply
+        # to every column of the input
+        log_j = -self.xp.sum(
+            self.xp.log(self._denom) + self.xp.zeros_like(y), axis=-1
         )
         return y, log_j
 
@@ -520,8 +522,8 @@ class BoundedTransform(BaseTransform):
             A tuple containing the mapped array and the log absolute determinant Jacobian.
         """
         x = self._denom * y + self.lower
-        log_j = -self._scale_log_abs_det_jacobian * self.xp.ones(
-            x.shape[0], device=get_device(x)
+        log_j = self.xp.sum(
+            self.xp.log(self._denom) + self.xp.zeros_like(x), axis=-1
         )
         return x, log_j
 
